@@ -36,6 +36,12 @@ CHECKS = {
  "C10": ("enumeration of all ordered key pairs over a scalar alphabet x 6 import formats (ECDH both directions vs x((ab)G)); every private-key candidate length/boundary; SEC 1 public-key corpus incl. other-curve points in all formats; accessor/cached-encoding consistency; caller-mutation history steps",
          "Bounded exhaustive exploration of the key API: 18^2 ordered pairs, both directions, keys imported as uncompressed / compressed / SPKI / projective points; NewPrivateKey on every length 0..34 and {0,1,n-1,n,n+1,2^256-1}; NewPublicKey / ParseASN1PublicKey / NewPublicKeyFromPoint accept iff the reference says valid non-identity point (twist and other-curve points included); every accessor and the hidden point/bytes (field-access hook) equal the reference encodings; after the caller mutates every returned value, wipes import buffers and derives Schnorr keys, all observations are unchanged.",
          "Trusted: /verif/ref.", "DESIGN.md §6 C10"),
+ "C13": ("enumeration of keys x message lengths x constructed signatures (valid, odd-y R, infinite R via s=e*d, r/s at p/n boundaries, deviations by one, every signature length 0..130) through keys built by four constructors, against the BIP-340 Verify pseudo-code",
+         "Bounded exhaustive exploration of Schnorr verification and x-only key import: every case is decided by a literal transcription of BIP-340 Verify; keys are built via NewSchnorrPublicKey, FromPoint (odd-y input and Z != 1 representative) and FromECDSA so that normalisation is part of the check; key import is checked on every length 0..34 and x on / off curve / >= p.",
+         "Trusted: /verif/ref BIP-340 (19 vectors). Signatures with a small s or r (valid aliases s+n, r+p) cannot be constructed without a discrete log: a reducing decode is only visible at the p / n boundary values (stated in DESIGN.md).", "DESIGN.md §6 C13"),
+ "C14": ("enumeration of (key, aux, message length) triples through the signSchnorr hook and the public Sign under every reader delivery mode and every fault position, byte-for-byte against BIP-340 Sign; all key-derivation routes x representatives x parities",
+         "Bounded exhaustive exploration of Schnorr signing and key derivation: 20 keys (both public-y parities) x 19 message lengths (0..1000, around SHA-256 block boundaries) x 5 aux values; signature bytes must equal the reference Sign, consume exactly 32 aux bytes, verify under reference and implementation; the four (key parity x nonce parity) classes are populated; reader faults after every j in 0..32; private/public key derivation routes expose the even-y point, its x, and a signing scalar d in {d', n-d'} consistent with it (field-access hook).",
+         "Trusted: /verif/ref BIP-340.", "DESIGN.md §6 C14"),
 }
 
 PENDING_REASON = "check under construction in this round; not yet claimed (see DESIGN.md §6 for the planned bounded-exhaustive check)"
